@@ -310,6 +310,16 @@ def run_roundtrip(c) -> dict:
         f["C14:keyset-roundtrip-differs"] = f"after export/import the set holds kids {[g[0] for g in got]!r}; before {[w[0] for w in want]!r}"
     if any(k.kid is None for k in back.keys):
         f["C14:key-without-kid-in-set"] = "a key of an imported set has no kid"
+    # a JWKS whose entries carry no "kid" member at all: every key must survive the import and get its thumbprint as kid
+    try:
+        bare = {"keys": [{m: v for m, v in e.items() if m != "kid"} for e in json.loads(json.dumps(d))["keys"]]}
+        back2 = KeySet.import_key_set(bare)
+        tps = sorted(rk.thumbprint(gk.key_from_record(k)) for k in c["keys"])
+        got2 = sorted(str(k.kid) for k in back2.keys)
+        if got2 != tps:
+            f["C14:kidless-jwks-import-differs"] = f"importing a JWKS of {len(tps)} entries without kid members gave keys with kids {got2!r}; expected the thumbprints {tps!r}"
+    except Exception as e:
+        f[f"C14:kidless-jwks-import-raises:{type(e).__name__}"] = str(e)
     return f
 
 
